@@ -7,10 +7,12 @@ export GOFLAGS=-mod=mod GOPROXY=off GOSUMDB=off GOTOOLCHAIN=local
 p=$1; wt=${2:-/tmp/wt/$p}
 n=$(( $(ls -d /verif/seeded/S-$p-* 2>/dev/null | wc -l) + 1 )); id=S-$p-$n; d=/verif/seeded/$id
 demo=$(cd $wt && find . -name zz_demo_test.go -not -path ./zz_demo_test.go | head -1)
+rootpkg=0
+if [ -z "$demo" ] && grep -q '^package olric' $wt/zz_demo_test.go 2>/dev/null; then demo=./zz_demo_test.go; rootpkg=1; fi
 [ -z "$demo" ] && { echo "no demo test in a package"; exit 2; }
 pkg=$(dirname $demo)
 cd $wt || exit 2
-[ -f zz_demo_test.go ] && mv zz_demo_test.go zz_demo_test.go.txt
+[ $rootpkg = 0 ] && [ -f zz_demo_test.go ] && mv zz_demo_test.go zz_demo_test.go.txt
 git diff > /tmp/wt/$p.cur.diff
 if ! diff -q <(grep -v '^index ' /tmp/wt/$p.cur.diff) <(grep -v '^index ' patch.diff) >/dev/null; then echo "WARNING: applied change differs from patch.diff"; fi
 go build ./... || { echo "build fails"; exit 2; }
